@@ -14,6 +14,7 @@ type Locker = sync.Locker
 type Map = sync.Map
 type Cond = sync.Cond
 
+//go:norace
 func NewCond(l Locker) *Cond { return sync.NewCond(l) }
 
 // ---------------- Mutex ----------------
@@ -23,6 +24,7 @@ type Mutex struct {
 	locked bool
 }
 
+//go:norace
 func (m *Mutex) Lock() {
 	if !zzvrt.Active() {
 		m.real.Lock()
@@ -36,8 +38,12 @@ func (m *Mutex) Lock() {
 		zzvrt.Block(zzvrt.BlockLock, "Mutex.Lock@"+callers(), func() bool { return !m.locked })
 	}
 	m.locked = true
+	if zzvrt.RaceMode {
+		m.real.Lock() // never blocks: the model is at least as strict; gives the detector the real edge
+	}
 }
 
+//go:norace
 func (m *Mutex) TryLock() bool {
 	if !zzvrt.Active() {
 		return m.real.TryLock()
@@ -50,9 +56,13 @@ func (m *Mutex) TryLock() bool {
 		return false
 	}
 	m.locked = true
+	if zzvrt.RaceMode {
+		m.real.Lock()
+	}
 	return true
 }
 
+//go:norace
 func (m *Mutex) Unlock() {
 	if !zzvrt.Active() {
 		m.real.Unlock()
@@ -65,10 +75,15 @@ func (m *Mutex) Unlock() {
 		zzvrt.NoteEvent("unlock-unlocked", "Mutex")
 		panic("sync: unlock of unlocked mutex")
 	}
+	if zzvrt.RaceMode {
+		m.real.Unlock()
+	}
 	m.locked = false
 }
 
 // VerifLocked reports the modelled state (for state dumps).
+//
+//go:norace
 func (m *Mutex) VerifLocked() bool { return m.locked }
 
 // ---------------- RWMutex ----------------
@@ -81,6 +96,7 @@ type RWMutex struct {
 	readers int
 }
 
+//go:norace
 func (rw *RWMutex) RLock() {
 	if !zzvrt.Active() {
 		rw.real.RLock()
@@ -103,8 +119,12 @@ func (rw *RWMutex) RLock() {
 	if t != nil {
 		t.RHeld()[rw]++
 	}
+	if zzvrt.RaceMode {
+		rw.real.RLock()
+	}
 }
 
+//go:norace
 func (rw *RWMutex) TryRLock() bool {
 	if !zzvrt.Active() {
 		return rw.real.TryRLock()
@@ -120,9 +140,13 @@ func (rw *RWMutex) TryRLock() bool {
 	if t := zzvrt.CurThread(); t != nil {
 		t.RHeld()[rw]++
 	}
+	if zzvrt.RaceMode {
+		rw.real.RLock()
+	}
 	return true
 }
 
+//go:norace
 func (rw *RWMutex) RUnlock() {
 	if !zzvrt.Active() {
 		rw.real.RUnlock()
@@ -135,6 +159,9 @@ func (rw *RWMutex) RUnlock() {
 		zzvrt.NoteEvent("unlock-unlocked", "RWMutex.RUnlock")
 		panic("sync: RUnlock of unlocked RWMutex")
 	}
+	if zzvrt.RaceMode {
+		rw.real.RUnlock()
+	}
 	rw.readers--
 	if t := zzvrt.CurThread(); t != nil {
 		if t.RHeld()[rw] > 0 {
@@ -143,6 +170,7 @@ func (rw *RWMutex) RUnlock() {
 	}
 }
 
+//go:norace
 func (rw *RWMutex) Lock() {
 	if !zzvrt.Active() {
 		rw.real.Lock()
@@ -161,8 +189,12 @@ func (rw *RWMutex) Lock() {
 		zzvrt.Block(zzvrt.BlockLock, "Lock@"+callers(), func() bool { return rw.readers == 0 })
 	}
 	rw.held = true
+	if zzvrt.RaceMode {
+		rw.real.Lock()
+	}
 }
 
+//go:norace
 func (rw *RWMutex) TryLock() bool {
 	if !zzvrt.Active() {
 		return rw.real.TryLock()
@@ -175,9 +207,13 @@ func (rw *RWMutex) TryLock() bool {
 		return false
 	}
 	rw.wLocked, rw.pending, rw.held = true, true, true
+	if zzvrt.RaceMode {
+		rw.real.Lock()
+	}
 	return true
 }
 
+//go:norace
 func (rw *RWMutex) Unlock() {
 	if !zzvrt.Active() {
 		rw.real.Unlock()
@@ -190,17 +226,26 @@ func (rw *RWMutex) Unlock() {
 		zzvrt.NoteEvent("unlock-unlocked", "RWMutex.Unlock")
 		panic("sync: Unlock of unlocked RWMutex")
 	}
+	if zzvrt.RaceMode {
+		rw.real.Unlock()
+	}
 	rw.held, rw.pending, rw.wLocked = false, false, false
 }
 
+//go:norace
 func (rw *RWMutex) RLocker() Locker { return (*rlocker)(rw) }
 
 type rlocker RWMutex
 
-func (r *rlocker) Lock()   { (*RWMutex)(r).RLock() }
+//go:norace
+func (r *rlocker) Lock() { (*RWMutex)(r).RLock() }
+
+//go:norace
 func (r *rlocker) Unlock() { (*RWMutex)(r).RUnlock() }
 
 // VerifState reports the modelled state (for state dumps).
+//
+//go:norace
 func (rw *RWMutex) VerifState() (held bool, readers int) { return rw.held, rw.readers }
 
 // ---------------- Once ----------------
@@ -211,6 +256,7 @@ type Once struct {
 	running bool
 }
 
+//go:norace
 func (o *Once) Do(f func()) {
 	if !zzvrt.Active() {
 		o.real.Do(f)
@@ -226,14 +272,25 @@ func (o *Once) Do(f func()) {
 	}
 	zzvrt.Point("Once.Do")
 	if o.done {
+		if zzvrt.RaceMode {
+			o.real.Do(func() {}) // completed: returns at once and gives the detector the real edge
+		}
 		return
 	}
 	if o.running {
 		zzvrt.Block(zzvrt.BlockOnce, "Once.Do", func() bool { return o.done })
+		if zzvrt.RaceMode {
+			o.real.Do(func() {})
+		}
 		return
 	}
 	o.running = true
 	defer func() { o.done, o.running = true, false }()
+	if zzvrt.RaceMode {
+		// run f inside the real Once; other threads are held back by the model until done
+		o.real.Do(f)
+		return
+	}
 	f()
 }
 
@@ -244,6 +301,7 @@ type WaitGroup struct {
 	n    int
 }
 
+//go:norace
 func (wg *WaitGroup) Add(delta int) {
 	if !zzvrt.Active() {
 		wg.real.Add(delta)
@@ -258,10 +316,15 @@ func (wg *WaitGroup) Add(delta int) {
 		zzvrt.NoteEvent("wg-negative", "")
 		panic("sync: negative WaitGroup counter")
 	}
+	if zzvrt.RaceMode {
+		wg.real.Add(delta)
+	}
 }
 
+//go:norace
 func (wg *WaitGroup) Done() { wg.Add(-1) }
 
+//go:norace
 func (wg *WaitGroup) Wait() {
 	if !zzvrt.Active() {
 		wg.real.Wait()
@@ -274,8 +337,12 @@ func (wg *WaitGroup) Wait() {
 	if wg.n > 0 {
 		zzvrt.Block(zzvrt.BlockWG, "WaitGroup.Wait", func() bool { return wg.n == 0 })
 	}
+	if zzvrt.RaceMode {
+		wg.real.Wait() // counter is zero: returns at once with the real edges
+	}
 }
 
+//go:norace
 func (wg *WaitGroup) VerifCount() int { return wg.n }
 
 // ---------------- Pool ----------------
@@ -288,8 +355,9 @@ type Pool struct {
 	items []any
 }
 
+//go:norace
 func (p *Pool) Get() any {
-	if !zzvrt.Active() {
+	if !zzvrt.Active() || zzvrt.RaceMode {
 		if p.real.New == nil && p.New != nil {
 			p.real.New = p.New
 		}
@@ -313,8 +381,9 @@ func (p *Pool) Get() any {
 	return nil
 }
 
+//go:norace
 func (p *Pool) Put(x any) {
-	if !zzvrt.Active() {
+	if !zzvrt.Active() || zzvrt.RaceMode {
 		p.real.Put(x)
 		return
 	}
@@ -327,4 +396,5 @@ func (p *Pool) Put(x any) {
 	p.items = append(p.items, x)
 }
 
+//go:norace
 func callers() string { return strings.Join(zzvrt.CallerNames(3, 3), "<") }
